@@ -274,6 +274,16 @@ impl<'tcx> Cx<'tcx> {
                 fields.push(("uneval", s(self.path(uv.def))));
                 if let Some(p) = uv.promoted {
                     fields.push(("promoted", J::I(p.index() as i128)));
+                } else if ty.is_ref() {
+                    // a named constant of reference type (e.g. `const NAME: &str = "Socket-Type"`): evaluate it so the
+                    // rules see the literal, not the name
+                    let r = std::panic::catch_unwind(std::panic::AssertUnwindSafe(|| {
+                        self.tcx.const_eval_resolve(tenv, uv, rustc_span::DUMMY_SP)
+                    }));
+                    if let Ok(Ok(v)) = r {
+                        let lit = Const::Val(v, ty);
+                        fields.push(("lit", s(with_no_trimmed_paths!(format!("{}", lit)))));
+                    }
                 } else if ty.is_integral() || ty.is_bool() {
                     let r = std::panic::catch_unwind(std::panic::AssertUnwindSafe(|| {
                         c.const_.try_eval_scalar_int(self.tcx, tenv)
